@@ -685,6 +685,119 @@ fn gen_decomp_wide(r: &mut Rng, ring: &str, count: usize, emit: &mut dyn FnMut(S
     }
 }
 
+/// lopsided columns: 1..3 LONG columns (17..40 stored rows with random gaps, each in its own band of rows) next to SHORT
+/// columns (1..4 stored rows) placed around the gaps g of a long column L (rows of L's band that L does not store,
+/// including the rows before its first and after its last stored row): {g, succ_L(g)}, {pred_L(g), g}, {g}, {g, g+2},
+/// {g, g', succ_L(g')}, {g, succ_L(succ_L(g))}, {row of another long column, g, succ_L(g)} ...  Every row is used by at most
+/// one short column, so the listed stored row of L is the ONLY intersection of that short column with anything else: an
+/// intersection test that treats a (short, long) pair differently from the plain merge (binary search, galloping) and
+/// mishandles "the next stored row after a miss" splits a summand.  Also pairs of long columns meeting in exactly one row.
+fn gen_decomp_lopsided(r: &mut Rng, ring: &str, count: usize, emit: &mut dyn FnMut(String)) {
+    for case in 0..count {
+        let nl = 1 + r.below(3) as usize;
+        // bands of rows
+        let mut bands: Vec<(usize, usize)> = vec![]; // (first row, width)
+        let mut m = if r.bool() { r.below(3) as usize } else { 0 }; // free rows on top
+        for _ in 0..nl {
+            let w = match nl { 1 => 19 + r.below(27), 2 => 19 + r.below(16), _ => 19 + r.below(8) } as usize;
+            bands.push((m, w));
+            m += w;
+            if r.chance(1, 3) { m += 1 + r.below(2) as usize; } // free rows between the bands
+        }
+        m += r.below(3) as usize;
+        // stored rows of the long columns
+        let mut long_rows: Vec<Vec<usize>> = vec![];
+        for &(b0, w) in &bands {
+            let maxg = (w - 17).min(8);
+            let ng = 1 + r.below(maxg as u64) as usize;
+            let mut gap = vec![false; w];
+            let mut placed = 0;
+            while placed < ng {
+                // boundary-biased: the first / second / last rows of the band are gaps more often
+                let q = match r.below(8) { 0 => 0, 1 => 1, 2 => w - 1, 3 => w - 2, _ => r.below(w as u64) as usize };
+                if !gap[q] { gap[q] = true; placed += 1; }
+            }
+            long_rows.push((0..w).filter(|&q| !gap[q]).map(|q| b0 + q).collect());
+        }
+        let mut used = vec![false; m];
+        // pairs of long columns meeting in exactly one row (a stored row of the earlier one)
+        if nl >= 2 && r.chance(1, 3) {
+            let a = r.below(nl as u64) as usize;
+            let b = (a + 1 + r.below(nl as u64 - 1) as usize) % nl;
+            let row = *r.pick(&long_rows[a]);
+            long_rows[b].push(row);
+            long_rows[b].sort();
+            used[row] = true;
+        }
+        let stored = |l: usize, i: usize| long_rows[l].binary_search(&i).is_ok();
+        let succ = |l: usize, i: usize| long_rows[l].iter().copied().find(|&x| x > i);
+        let pred = |l: usize, i: usize| long_rows[l].iter().rev().copied().find(|&x| x < i);
+        // short columns
+        let ns = 2 + r.below(8) as usize;
+        let mut shorts: Vec<Vec<usize>> = vec![];
+        let mut tries = 0;
+        while shorts.len() < ns && tries < 200 {
+            tries += 1;
+            let l = r.below(nl as u64) as usize;
+            let (b0, w) = bands[l];
+            // gaps of l: rows around its band that it does not store
+            let lo = b0.saturating_sub(1);
+            let hi = (b0 + w + 1).min(m);
+            let gaps: Vec<usize> = (lo..hi).filter(|&i| !stored(l, i) && !(0..nl).any(|l2| stored(l2, i))).collect();
+            if gaps.is_empty() { continue; }
+            let g = *r.pick(&gaps);
+            let mut rows: Vec<usize> = vec![g];
+            match r.below(14) {
+                0..=5 => { if let Some(x) = succ(l, g) { rows.push(x); } }                      // {g, succ g}: the adversarial one
+                6 => { if let Some(x) = pred(l, g) { rows.push(x); } }                           // {pred g, g}
+                7 => {}                                                                          // {g}: a summand of its own
+                8 => { if g + 2 < m { rows.push(g + 2); } }                                      // {g, g+2}
+                9 => {                                                                           // {g, g', succ g'}
+                    let g2 = *r.pick(&gaps);
+                    rows.push(g2);
+                    if let Some(x) = succ(l, g.max(g2)) { rows.push(x); }
+                }
+                10 => { if let Some(x) = succ(l, g).and_then(|x| succ(l, x)) { rows.push(x); } }  // {g, succ succ g}
+                11 => {                                                                          // {g, g'}: no link at all
+                    rows.push(*r.pick(&gaps));
+                }
+                12 => {                                                                          // {g, last stored row}
+                    rows.push(*long_rows[l].last().unwrap());
+                }
+                _ => {                                                                           // {row of another long column, g, succ g}
+                    if nl >= 2 {
+                        let l2 = (l + 1 + r.below(nl as u64 - 1) as usize) % nl;
+                        rows.push(*r.pick(&long_rows[l2]));
+                    }
+                    if let Some(x) = succ(l, g) { rows.push(x); }
+                }
+            }
+            rows.sort();
+            rows.dedup();
+            if rows.iter().any(|&i| used[i]) { continue; }
+            for &i in &rows { used[i] = true; }
+            shorts.push(rows);
+        }
+        // assemble with the columns in random order (long columns first / last / mixed)
+        let n = nl + shorts.len() + if r.chance(1, 4) { 1 } else { 0 }; // sometimes an empty column
+        let mut cp: Vec<usize> = (0..n).collect();
+        match case % 3 { 0 => {}, 1 => cp.reverse(), _ => shuffle(r, &mut cp) }
+        let zeros = r.chance(1, 5); // explicit stored zeros also link columns
+        let mut g = GM::new(m, n);
+        let put = |g: &mut GM, r: &mut Rng, i: usize, j: usize| {
+            let v = if zeros && r.chance(1, 6) { zero_tok(ring) } else { val_tok(r, ring) };
+            g.set(i, j, v);
+        };
+        for (l, rows) in long_rows.iter().enumerate() {
+            for &i in rows { put(&mut g, r, i, cp[l]); }
+        }
+        for (k, rows) in shorts.iter().enumerate() {
+            for &i in rows { put(&mut g, r, i, cp[nl + k]); }
+        }
+        emit(format!("decomp {} {}", ring, g.toks()));
+    }
+}
+
 fn main() {
     quiet_panics();
     let pools: Vec<ThreadPool> =
@@ -740,6 +853,12 @@ fn main() {
                     let leaves = leaves + rr.below(2) as usize;
                     emit(format!("decompw {} {} {} {}", stars, leaves, len, if k % 5 == 4 { 0 } else { 1 }));
                 }
+            }
+            {
+                // long columns next to short ones whose only link is one shared row (see gen_decomp_lopsided)
+                let mut rr = r.fork();
+                gen_decomp_lopsided(&mut rr, "Z", 28 * f, &mut emit);
+                gen_decomp_lopsided(&mut rr, "F7", 12 * f, &mut emit);
             }
             o.finish();
         }
